@@ -178,13 +178,15 @@ Print Assumptions C10_relation_implies_agree.
    reference server and the bot model, run in lock step from the connected start state, agree after every action.
    INSIDE (step case proved, Step*.v): CONNECT; TOPIC; KICK with any number of victims (the bot included); QUIT; NICK
    (real and case-only, other users and the bot itself); MODE with any accepted change list (o h v b k l and the flags
-   n t s m i p, mixed signs; parameters canonical as in [dom]); CHGHOST; WHO refresh; reconnect; PART with any list of channels (other users
-   and the bot); single-target JOIN of another user into any channel; the bot's own single-target JOIN into a channel
-   nobody is on (full burst).
+   n t s m i p, mixed signs; parameters canonical as in [dom]); CHGHOST; WHO refresh; reconnect; PART with any list of
+   channels (other users and the bot); JOIN of another user with any list of channels (one multi-target message for the
+   channels the bot is on); the bot's own JOIN with any list of targets, each of them a channel nobody is on at that moment
+   (ONE multi-target JOIN message, then the full burst of every channel; targets it is already on or that are refused are
+   skipped).
    STILL OUTSIDE: (1) the bot joining a channel that already has members (needs the 353 item loop, the 324 letter loop, the
    367 and 352 loops); (2) a NAMES refresh (the same 353 item loop -- it needs the member keys to be canonical nick spellings,
-   which the reference server does not yet guarantee: it stores the actor's spelling); (3) multi-target JOIN lists
-   (AJoin with more than one channel).  These are covered by the differential run only. *)
+   which the reference server does not yet guarantee: it stores the actor's spelling).  These are covered by the
+   differential run only. *)
 Theorem C10_simulation_trace_partial :
   forall nick0 prefix0 u h uh acts,
   valid_nick nick0 = true -> valid_uh u = true -> valid_uh h = true ->
